@@ -26,6 +26,9 @@ ASSUMPTIONS = ["reference spectrum = numpy eigvalsh of the harness' explicit Fou
                "hand-built SystemSOC: R-vectors and dV/overlap matrices are assigned the way SystemSOC.from_npz does; "
                "a SystemSOC without spin-orbit term gets _NKFFT_recommended=(1,1,1) because Grid() asks for it "
                "(DESIGN section 9 recipe)",
+               "evaluate_k(...,'energy') reports the mean of every multiplet of bands closer than degen_thresh=1e-4 "
+               "(documented tabulator behaviour); the reference is grouped the same way, a gap within 1e-7 of the threshold "
+               "skips that observation; Data_K.E_K is compared without grouping",
                "eigenvector-dependent quantities are never compared, only spectra, Wannier-gauge matrices and "
                "derivative matrices rotated back with the returned eigenvectors"]
 MIN_NONTRIVIAL = {"quick": 60, "thorough": 600}
@@ -67,8 +70,8 @@ def check_double(case):
     for k in case["kpts"]:
         k = np.array(k)
         E = np.array(wb.evaluate_k(s, k=k, quantities=["energy"]))
-        ref = np.repeat(model.bands(k), 2)
-        if E.shape != ref.shape or reldiff(E, ref) > TOL:
+        ref = spinsoc.tab_average(np.repeat(model.bands(k), 2))  # evaluate_k averages multiplets closer than 1e-4
+        if ref is not None and (E.shape != ref.shape or reldiff(E, ref) > TOL):
             raise Violation("double-spectrum", f"k={k.tolist()}: got {E.tolist()} expected {ref.tolist()}")
     # --- Wannier-gauge matrices on an FFT grid: H(k) (x) 1 in interlaced order
     NKFFT = np.array(case["NKFFT"])
@@ -165,11 +168,12 @@ def check_soc(case):
     for k in case["kpts"]:
         k = np.array(k)
         E = np.array(wb.evaluate_k(soc, k=k, quantities=["energy"]))
-        ref = np.sort(ref_model.bands(k))
-        if E.shape != ref.shape or reldiff(E, ref) > TOL:
+        ref = spinsoc.tab_average(np.sort(ref_model.bands(k)))  # evaluate_k averages multiplets closer than 1e-4
+        if ref is not None and (E.shape != ref.shape or reldiff(E, ref) > TOL):
             raise Violation("soc-spectrum", f"evaluate_k at k={k.tolist()} differs from own H_soc spectrum by "
                             f"{reldiff(E, ref):.2e} (has_soc={sm.has_soc})")
-        if no_soc and reldiff(E, sm.union_bands(k)) > TOL:
+        refu = spinsoc.tab_average(sm.union_bands(k))
+        if no_soc and refu is not None and reldiff(E, refu) > TOL:
             raise Violation("nosoc-union", f"k={k.tolist()}: spectrum is not the union of the up and down spectra")
     # --- FFT grid with shift
     NKFFT = np.array(case["NKFFT"])
